@@ -19,7 +19,7 @@ type c03 struct{}
 func (c03) ID() string    { return "C03" }
 func (c03) Level() string { return "exploration" }
 func (c03) Rule() string {
-	return "grammar products, each complete within its domain: ports [IP:][HOST[-HOST]:]CONTAINER[-CONTAINER][/PROTO] (4 IPs x 5 host forms x 3 container forms x 4 protocols + bare integers; ranges starting at 15 (container, host) bases incl. every decimal-width boundary 9|10 .. 9999|10000); volumes [SOURCE:]TARGET[:MODE,...] (9 sources x 3 targets x mode sets of <=2 from 8); devices SRC[:DST[:PERM]]; secrets/configs by name; build string; env_file / label_file string, list, long; depends_on and networks lists; extends string; healthcheck test string; external {name}; KEY[=VALUE] lists vs mappings (6 value kinds) at 8 positions; string-or-list at 6 positions; command/entrypoint strings over <=3 words from 10 word shapes (plain, single/double quoted, escaped blank, empty, words containing no-break space, ideographic space, vertical tab, form feed); durations and byte sizes against numeric literals; each short form loaded next to the reference long form written from the specification grammar and compared on the whole project; near misses must be errors. distinct = distinct short-form strings"
+	return "grammar products, each complete within its domain: ports [IP:][HOST[-HOST]:]CONTAINER[-CONTAINER][/PROTO] (4 IPs x 5 host forms x 3 container forms x 4 protocols + bare integers; ranges starting at 15 (container, host) bases incl. every decimal-width boundary 9|10 .. 9999|10000); volumes [SOURCE:]TARGET[:MODE,...] (9 sources x 3 targets x mode sets of <=2 from 8); devices SRC[:DST[:PERM]]; secrets/configs by name; build string; env_file / label_file string, list, long; depends_on and networks lists; extends string; healthcheck test string; external {name}; KEY[=VALUE] lists vs mappings (6 value kinds x 4 key shapes: plain, x- prefixed, dotted, mixed) at 8 service positions and on the labels of every resource kind; string-or-list at 6 positions; command/entrypoint strings over <=3 words from 10 word shapes (plain, single/double quoted, escaped blank, empty, words containing no-break space, ideographic space, vertical tab, form feed); durations and byte sizes against numeric literals; each short form loaded next to the reference long form written from the specification grammar and compared on the whole project; near misses must be errors. distinct = distinct short-form strings"
 }
 func (c03) Assumptions() []string {
 	return []string{
@@ -374,10 +374,33 @@ func c03misc() []c03case {
 		}
 		for _, v := range vals {
 			eq("kv/"+pos.name+"/"+v[0], pos.prefix+"\n"+indent+"- \""+v[1]+"\"\n"+indent+"- OTHER=o\n", pos.prefix+"\n"+indent+v[2]+"\n"+indent+"OTHER: o\n")
+			// the key is user data whatever it looks like: extension-like, dotted, mixed
+			for _, key := range []string{"x-key", "a.b", "UP-low_1"} {
+				eq("kv/"+pos.name+"/"+v[0]+"/key="+key, pos.prefix+"\n"+indent+"- \""+strings.Replace(v[1], "K", key, 1)+"\"\n"+indent+"- OTHER=o\n",
+					pos.prefix+"\n"+indent+strings.Replace(v[2], "K", key, 1)+"\n"+indent+"OTHER: o\n")
+			}
 		}
 		// raw (unquoted) scalar values in the mapping spelling
 		eq("kv/"+pos.name+"/raw-int", pos.prefix+"\n"+indent+"- K=7\n", pos.prefix+"\n"+indent+"K: 7\n")
 		eq("kv/"+pos.name+"/raw-bool", pos.prefix+"\n"+indent+"- K=true\n", pos.prefix+"\n"+indent+"K: true\n")
+	}
+	// labels of top-level resources, same key shapes
+	for _, res := range []struct{ kind, name, body string }{{"networks", "n1", ""}, {"volumes", "named", ""}, {"secrets", "sec", "file: ./s, "}, {"configs", "cfg", "content: c, "}} {
+		for _, key := range []string{"K", "x-key", "a.b"} {
+			others := ""
+			for _, o := range []struct{ kind, txt string }{{"networks", "networks: {n1: {}, n2: {}}\n"}, {"volumes", "volumes: {named: {}}\n"}, {"secrets", "secrets: {sec: {file: ./s}}\n"}, {"configs", "configs: {cfg: {content: c}}\n"}} {
+				if o.kind != res.kind {
+					others += o.txt
+				}
+			}
+			extra := ""
+			if res.kind == "networks" {
+				extra = "  n2: {}\n"
+			}
+			out = append(out, c03case{id: "kv/" + res.kind + ".labels/key=" + key, short: "    image: i\n", long: "    image: i\n", kind: "eq",
+				top:  res.kind + ":\n  " + res.name + ": {" + res.body + "labels: [\"" + key + "=v\", OTHER=o]}\n" + extra + others,
+				topL: res.kind + ":\n  " + res.name + ": {" + res.body + "labels: {\"" + key + "\": v, OTHER: o}}\n" + extra + others})
+		}
 	}
 	// valueless key: list "K" vs mapping "K:" (environment, build args)
 	eq("kv/environment/novalue", "    environment:\n      - K\n", "    environment:\n      K:\n")
